@@ -243,8 +243,75 @@ def classify(fmt, epname, fn, text):
     return "%s|%s|%s" % (fmt, type(e).__name__, where), "%s raised %s: %s" % (epname, type(e).__name__, str(e)[:160].replace("\n", " "))
 
 
+# -- a valid document read after bad input ------------------------------------------------
+# A reader that keeps anything between calls (module-level tokenizer state, a half-filled
+# namespace or mapper left by a parse that raised) shows on the NEXT read.  Every PROBE_EVERY
+# parses of a chunk the seed document of that format is read again through the same entry
+# point and must give exactly what it gave when it was read first in this chunk.
+
+PROBE_EVERY = 20
+PROBE_DOCS = {"newick": "((a:1,b:2)x:1,(c:3,'d e':4)y:2)r;\n(a,(b,c),'d e');\n"}
+_probe_state = {}
+
+
+def _summary(res):
+    trees, mats = [], []
+    if isinstance(res, dendropy.Tree):
+        trees = [res]
+    elif isinstance(res, dendropy.TreeList):
+        trees = list(res)
+    elif isinstance(res, list):
+        trees = [x for x in res if isinstance(x, dendropy.Tree)]
+    elif isinstance(res, dendropy.DataSet):
+        for tl in res.tree_lists:
+            trees.extend(tl)
+        mats = list(res.char_matrices)
+    elif isinstance(res, dendropy.CharacterMatrix):
+        mats = [res]
+    out = []
+    for t in trees:
+        out.append(("tree", t.is_rooted, ref.canon(ref.snapshot(t)[1]), tuple(x.label for x in t.taxon_namespace),
+                    tuple(str(c) for c in t.comments), getattr(t, "weight", None),
+                    tuple(sorted((str(a.name), str(a.value)) for a in t.annotations))))
+    for m in mats:
+        out.append(("matrix", type(m).__name__, tuple((tx.label, tuple(str(v) for v in m[tx])) for tx in m)))
+    return tuple(out)
+
+
+def _probe_outcome(fn, text):
+    st, v, n = budgeted(lambda: fn(text), BUDGET)
+    if st == "ok":
+        return ("ok", _summary(v))
+    if st == "hang":
+        return ("hang", str(v))
+    return ("raises", type(v).__name__)
+
+
+def probe_valid_after_bad(seedname, fmt, epname, fn, ctx, last_text):
+    doc = SEEDS[seedname][1] if seedname in SEEDS else PROBE_DOCS.get(fmt)
+    if doc is None:
+        return
+    key = (seedname, fmt, epname)
+    st = _probe_state.setdefault("cur", {})
+    ent = st.setdefault(key, {"n": 0, "first": None})
+    if ent["first"] is None:
+        ent["first"] = _probe_outcome(fn, doc)
+        return
+    ent["n"] += 1
+    if ent["n"] % PROBE_EVERY:
+        return
+    ctx.count("valid_document_reads_after_bad_input")
+    got = _probe_outcome(fn, doc)
+    if got != ent["first"]:
+        ctx.violation("%s|valid-document-after-bad-input|%s" % (fmt, epname),
+                      "%s gave %s for the valid document when read first, %s when read again after other inputs (last: %r)" % (
+                          epname, str(ent["first"])[:150], str(got)[:150], last_text[-60:]),
+                      {"kind": "valid-after-bad", "seed": seedname, "format": fmt, "entry_point": epname, "text": last_text, "all_eps": True})
+
+
 def run_text(seedname, fmt, text, ctx, all_eps, kind, nontrivial=True):
     for epname, fn in entry_points(seedname, fmt, all_eps).items():
+        probe_valid_after_bad(seedname, fmt, epname, fn, ctx, text)
         ctx.case((epname, fmt, seedname if fmt in ("phylip",) or seedname.startswith("nexus") else "", text), nontrivial=nontrivial)
         ctx.count("parses")
         sig, msg = classify(fmt, epname, fn, text)
@@ -309,6 +376,7 @@ def chunks(tier):
 
 
 def run_chunk(chunk, ctx):
+    _probe_state["cur"] = {}   # the reference outcome is taken afresh in every chunk
     k = chunk["kind"]
     tier = chunk["tier"]
     all_eps = tier == "thorough"
@@ -383,6 +451,17 @@ def replay(case, ctx):
     name, fmt, text = case["seed"], case["format"], case["text"]
     eps = entry_points(name, fmt, True)
     fn = eps[case["entry_point"]]
+    if case.get("kind") == "valid-after-bad":
+        # [valid document; the bad input; valid document again]
+        doc = SEEDS[name][1] if name in SEEDS else PROBE_DOCS.get(fmt)
+        first = _probe_outcome(fn, doc)
+        classify(fmt, case["entry_point"], fn, text)
+        got = _probe_outcome(fn, doc)
+        ctx.case(("replay", text))
+        if got != first:
+            ctx.violation("%s|valid-document-after-bad-input|%s" % (fmt, case["entry_point"]),
+                          "valid document read differently after %r" % text[-60:], case)
+        return
     sig, msg = classify(fmt, case["entry_point"], fn, text)
     ctx.case(("replay", text))
     if sig is not None:
